@@ -94,6 +94,77 @@ fn run_dup(base: Instant, c: &DupCase) -> (u64, u64, Vec<(String, String)>) {
     }
 }
 
+/// Replays at rest: the workload has completed and the network is quiet; 100 ms later every
+/// datagram the peer ever sent to a node is delivered to it once more, one at a time. A replayed
+/// packet is recognised by its number and must leave the connection exactly as it was: same timers
+/// (a replay is not peer activity: idle and keep-alive timers keep their deadlines), same
+/// acknowledgement state, nothing sent in response.
+fn replay_at_rest(base: Instant, cfgname: &'static str, wl: Wl) -> (u64, Vec<(String, String)>) {
+    let r = guarded(|| {
+        let cfg = cfg_by_name(cfgname);
+        let mut p = std_pair_pre(base, &cfg, wl, ReadMode::default(), |_| {});
+        let done = drive(&mut p, &[], 60_000, HZ);
+        let mut v = vec![];
+        if !done {
+            return (0u64, v);
+        }
+        // let delayed acknowledgements go out
+        let until = p.w.t + Duration::from_millis(100);
+        let mut g = 0;
+        while g < 2000 {
+            g += 1;
+            match p.w.next_event() {
+                Some((at, _)) if at <= until => {
+                    p.w.step();
+                }
+                _ => break,
+            }
+        }
+        p.w.t = p.w.t.max(until);
+        let olds: Vec<(usize, u64, Vec<u8>, std::net::SocketAddr, std::net::SocketAddr)> = p.w.recs.iter().filter_map(|r| match r {
+            Rec::Emit { node, idx, data, src, dst, ch: Some(_), .. } if *node < 2 => Some((*node, *idx, data.clone(), *src, *dst)),
+            _ => None,
+        }).collect();
+        let mut n = 0u64;
+        for (from, idx, data, src, dst) in olds {
+            let to = 1 - from;
+            let Some(ch) = (if to == CLIENT { Some(p.cch) } else { p.sch() }) else { continue };
+            let Some(before) = p.w.nodes[to].conns.get(&ch).map(|s| s.conn.verif_probe()) else { continue };
+            if before.state != "established" {
+                continue;
+            }
+            let mark = p.w.recs.len();
+            let at = p.w.t;
+            let routed = p.w.deliver(crate::sim::Flight { at, seq: 0, idx: u64::MAX, src, dst, ecn: None, data: data.clone(), injected: true });
+            // (a datagram whose connection ID has been retired meanwhile no longer reaches the
+            // connection; what the endpoint does with it is C09's business)
+            if routed != crate::sim::Routed::Conn(ch) {
+                continue;
+            }
+            n += 1;
+            let sent = p.w.recs[mark..].iter().filter(|r| matches!(r, Rec::Emit { node, ch: Some(_), .. } if *node == to)).count();
+            let Some(mut after) = p.w.nodes[to].conns.get(&ch).map(|s| s.conn.verif_probe()) else { continue };
+            // (bytes received on the path count every datagram, replayed or not)
+            after.path_total_recvd = before.path_total_recvd;
+            if sent != 0 {
+                v.push(("replayed-datagram-draws-output".into(), format!("node{to}: datagram #{idx} ({} bytes) delivered a second time 100 ms after the transfer completed made the connection send {sent} datagram(s)", data.len())));
+                break;
+            }
+            if after != before {
+                let tb: Vec<_> = before.timers.iter().map(|(n, t)| (*n, t.saturating_duration_since(base))).collect();
+                let ta: Vec<_> = after.timers.iter().map(|(n, t)| (*n, t.saturating_duration_since(base))).collect();
+                v.push(("replayed-datagram-changes-state".into(), format!("node{to}: datagram #{idx} ({} bytes) delivered a second time 100 ms after the transfer completed changed the connection: timers {tb:?} -> {ta:?}{}", data.len(), if tb == ta { " (other bookkeeping differs)" } else { "" })));
+                break;
+            }
+        }
+        (n, v)
+    });
+    match r {
+        Err(e) => (0, vec![("panic".into(), format!("panic: {e}"))]),
+        Ok(x) => x,
+    }
+}
+
 /// A run with one injected datagram delivered right after emission index `after` was delivered
 #[derive(Clone, Debug)]
 struct InjCase {
@@ -838,7 +909,7 @@ pub fn main(args: &Args) -> ! {
     let mut rep = Report::new("C04", args, "fault_enumeration");
     let thorough = args.tier == Tier::Thorough;
     let dl = deadline(if thorough { 1200 } else { 45 });
-    rep.rule = "E3 over the real endpoints: (a) every emitted datagram of each baseline re-delivered after each delay of a delay list (and all pairs in thorough) with forced key updates, oracle: per frame type frames processed <= frames decoded on the wire; (b) every emitted datagram x every mutation (every bit of the first byte, bit flips in the leading 24 (thorough: 32, all bits) and trailing 16 bytes, truncations around every header boundary, extensions) injected after the original, differential oracle against the uninjected run; (b2) each early datagram damaged in transit (original lost, mutated copy arrives): the peers must recover and complete; (c) stateless-reset, Version Negotiation and Retry probes at every step index; (d) E1: the replay window (`Dedup`) through every insert history over two packet-number alphabets (one dense around jumps of 126..131 and the second window) against the set of numbers seen. Non-trivial = the injected/duplicated datagram was actually delivered; distinct = distinct (kind, index, mutation) tuples by hash of the resulting trace.".into();
+    rep.rule = "E3 over the real endpoints: (a) every emitted datagram of each baseline re-delivered after each delay of a delay list (and all pairs in thorough) with forced key updates, oracle: per frame type frames processed <= frames decoded on the wire; (a2) after completion and 100 ms of quiet every datagram of the run is delivered once more, one at a time: the receiving connection's timers and bookkeeping (probe) are unchanged and nothing is sent; (b) every emitted datagram x every mutation (every bit of the first byte, bit flips in the leading 24 (thorough: 32, all bits) and trailing 16 bytes, truncations around every header boundary, extensions) injected after the original, differential oracle against the uninjected run; (b2) each early datagram damaged in transit (original lost, mutated copy arrives): the peers must recover and complete; (c) stateless-reset, Version Negotiation and Retry probes at every step index; (d) E1: the replay window (`Dedup`) through every insert history over two packet-number alphabets (one dense around jumps of 126..131 and the second window) against the set of numbers seen. Non-trivial = the injected/duplicated datagram was actually delivered; distinct = distinct (kind, index, mutation) tuples by hash of the resulting trace.".into();
 
     // (a) duplicates
     let scripts: Vec<(&'static str, Vec<(u64, Op)>)> = vec![
@@ -886,6 +957,25 @@ pub fn main(args: &Args) -> ! {
         }
     }
     rep.part("duplicates", json!({"cases": ndup, "executed": res.len(), "delays_ms": delays, "capped": capped}));
+    {
+        let mut replays = 0u64;
+        let mut cases = 0u64;
+        for cfg in ["default", "idle30s", "keepalive", "cid0", "retry", "cidlife"] {
+            for wl in [Wl::W1, Wl::W2, Wl::W8] {
+                let (n, viol) = replay_at_rest(base, cfg, wl);
+                replays += n;
+                cases += 1;
+                rep.evaluations += n;
+                for (sig, what) in viol {
+                    rep.violation(Violation { signature: sig, what: format!("cfg={cfg} wl={wl:?}: {what}"), replay: json!({"check":"c04","kind":"replay_at_rest","cfg":cfg,"wl":format!("{wl:?}")}) });
+                }
+            }
+        }
+        if replays == 0 {
+            machinery("vacuity guard: no datagram was replayed at rest");
+        }
+        rep.part("replays_at_rest", json!({"cases": cases, "datagrams_replayed": replays}));
+    }
     rep.sample(json!({"kind":"dup","cfg":"default","wl":"W1","dups":[[0,15]],"meaning":"the connection-creating Initial (emission #0) is delivered a second time 15 ms after the first copy"}));
 
     // (b) corruptions, differential
